@@ -6,7 +6,7 @@ import ast
 from sa.astx import call_name, src
 from sa.selftest import Mutant, Silent
 from sa.source import AnalysisError, class_assigns
-from sa.props._lib_i import COMPAT, BlockRaised, NotPure, Raised, eval_block, interp, module_env, peval, words
+from sa.props._lib_i import sect, COMPAT, BlockRaised, NotPure, Raised, eval_block, interp, module_env, peval, words
 
 PROPERTY = "C42"
 IMAP = "mail/imap4.py"
@@ -79,186 +79,192 @@ def check(ctx):
     funcs["hasattr"] = lambda o, n: hasattr(o, n)
 
     # ---- writer: _quote ------------------------------------------------------------------------------------
-    fq = ctx.func(IMAP, "_quote")
-    quote = interp(fq, funcs, env0)
-    q = "twisted.mail.imap4._quote"
-    bad = None
-    n = 0
-    for w in words((ESC, QU, b"a"), 4):
-        p = b"".join(w)
-        got, err = _call(quote, p)
-        n += 1
-        if got != ref_quote(p):
-            bad = (p, got if err is None else err)
-            break
-    ctx.check(bad is None, "quote/writer-semantics", q,
-              bad and f"_quote({bad[0]!r}) gives {bad[1]!r}; an RFC 3501 quoted string needs {ref_quote(bad[0])!r} (escape the backslash first, then the quote)",
-              detail=f"{n} payloads over {{\\\\, \", a}}^<=4")
-    funcs["_quote"] = quote
-
-    # ---- writer: _needsLiteral -----------------------------------------------------------------------------
-    fn_ = ctx.func(IMAP, "_needsLiteral")
-    needs = interp(fn_, funcs, env0)
-    q = "twisted.mail.imap4._needsLiteral"
-    bad = None
-    for w in words((b"\r", b"\n", b"a"), 3):
-        p = b"".join(w)
-        got, err = _call(needs, p)
-        if err is not None:
-            raise AnalysisError(f"{q}: evaluation raises for {p!r}: {err}")
-        must = b"\r" in p or b"\n" in p
-        if must and not got:
-            bad = p
-            break
-    ctx.check(bad is None, "literal/needs-literal", q,
-              f"{bad!r} contains a line break but is not sent as a literal: inside a quoted string the break ends the protocol line and the "
-              "client's line-based framing loses the rest", detail="40 strings over {CR, LF, a}^<=3")
-    plain_ok = not _call(needs, b"a b")[0] and not _call(needs, b"")[0]
-    ctx.check(plain_ok, "literal/needs-literal", q + " | plain strings quoted", "short strings without line breaks are no longer sent as quoted strings")
-    funcs["_needsLiteral"] = needs
-
-    # ---- writer: collapseNestedLists per item kind ---------------------------------------------------------------
-    fc = ctx.func(IMAP, "collapseNestedLists")
-    q = "twisted.mail.imap4.collapseNestedLists"
-    collapse = interp(fc, funcs, env0)
-    funcs["collapseNestedLists"] = collapse
-    kinds = [
-        ("None -> NIL", [None]), ("int -> decimal atom", [0]), ("int -> decimal atom", [1234567890123]), ("int -> decimal atom", [-3]),
-        ("bytes -> quoted", [b""]), ("bytes -> quoted", [b"a b"]), ("bytes -> quoted", [b'a"\\b']), ("bytes -> quoted", [b"NIL"]), ("bytes -> quoted", [b"{3}"]),
-        ("bytes with line break -> literal", [b"a\nb"]), ("bytes with line break -> literal", [b"\r"]), ("bytes with line break -> literal", [b'"\\\n)']),
-        ("nested list -> parenthesised", [[b"x", None]]), ("nested list -> parenthesised", [[]]), ("nested list -> parenthesised", [[[1]], b"y"]),
-        ("items separated by one space", [None, 1, b"a"]), ("items separated by one space", []),
-    ]
-    seen = {}
-    for kind, items in kinds:
-        got, err = _call(collapse, items)
-        want = b" ".join(ref_item(x, delim) for x in items)
-        ok = err is None and got == want
-        if kind not in seen or (seen[kind][0] and not ok):
-            seen[kind] = (ok, items, got if err is None else err, want)
-    for kind, (ok, items, got, want) in seen.items():
-        ctx.check(ok, "writer/item-forms", f"{q} | {kind}", f"collapseNestedLists({items!r}) gives {got!r}; required {want!r}")
-
-    # ---- reader: parseNestedParens transition table ----------------------------------------------------------------
-    fp = ctx.func(IMAP, "parseNestedParens")
-    q = "twisted.mail.imap4.parseNestedParens"
-    loops = [x for x in ast.walk(fp) if isinstance(x, ast.While)]
-    ctx.need(len(loops) == 1, f"the scanning loop of {q}")
-    loop = loops[0]
-    params = [a.arg for a in fp.args.args]
-    ctx.need(len(params) == 2, f"{q}(s, handleLiteral)")
-    sname, hl = params
-    # names of the state variables: index, length, quote flag, stack - found by their initialisers
-    init = {}
-    for st in ast.walk(fp):
-        if isinstance(st, ast.Assign) and len(st.targets) == 1 and isinstance(st.targets[0], ast.Name) and st not in ast.walk(loop):
-            init[st.targets[0].id] = st.value
-    idx = [k for k, v in init.items() if isinstance(v, ast.Constant) and v.value == 0 and k in {n.id for n in ast.walk(loop.test) if isinstance(n, ast.Name)}]
-    flag = [k for k, v in init.items() if isinstance(v, ast.Constant) and v.value in (0, False) and k not in idx]
-    stack = [k for k, v in init.items() if isinstance(v, ast.List) and len(v.elts) == 1 and isinstance(v.elts[0], ast.List)]
-    length = [k for k, v in init.items() if isinstance(v, ast.Call) and call_name(v) == "len"]
-    ctx.need(len(idx) == 1 and len(flag) == 1 and len(stack) == 1, f"index / in-quote flag / content stack of {q}")
-    idx, flag, stack = idx[0], flag[0], stack[0]
-
-    def step(s, in_quote, depth=1, handle=1):
-        st = [[] for _ in range(depth)]
-        env = {**env0, sname: s, hl: handle, idx: 0, flag: in_quote, stack: st}
-        for ln in length:
-            env[ln] = len(s)
-        try:
-            r = eval_block(loop.body, env, funcs=funcs)
-        except BlockRaised as e:
-            return {"raised": repr(e.exc)}
-        return {"i": env[idx], "q": bool(env[flag]), "stack": env[stack], "raised": r.raised}
-
-    def expect(case, s, in_quote, want, depth=1, why=""):
-        got = step(s, in_quote, depth)
-        ctx.check(got == want, "reader/paren-transitions", f"{q} | {case}",
-                  f"at {s!r} ({'inside' if in_quote else 'outside'} a quoted string) one scanning step gives {got!r}; required {want!r}. {why}")
-
-    expect("in quotes: escape + quote", b'\\"x', 1, {"i": 2, "q": True, "stack": [[b'\\"']], "raised": None},
-           why="the unit after the escape must be consumed with it, else an escaped quote closes the string")
-    expect("in quotes: escape + escape", b'\\\\"', 1, {"i": 2, "q": True, "stack": [[b"\\\\"]], "raised": None},
-           why="a doubled escape must be consumed as a pair, else its second half escapes the closing quote")
-    expect("in quotes: closing quote", b'"x', 1, {"i": 1, "q": False, "stack": [[b'"']], "raised": None})
-    for sp in (b"(", b")", b"[", b"]", b"{"):
-        expect("in quotes: specials are inert", sp + b"3}x", 1, {"i": 1, "q": True, "stack": [[sp]], "raised": None},
-               why="list and literal syntax inside a quoted string is data")
-    expect("outside: opening quote", b'"x', 0, {"i": 1, "q": True, "stack": [[b'"']], "raised": None})
-    expect("outside: plain unit", b"ax", 0, {"i": 1, "q": False, "stack": [[b"a"]], "raised": None})
-    for o in (b"(", b"["):
-        expect("outside: open list", o + b"x", 0, {"i": 1, "q": False, "stack": [[], []], "raised": None})
-    for c in (b")", b"]"):
-        expect("outside: close list", c + b"x", 0, {"i": 1, "q": False, "stack": [[[]]], "raised": None}, depth=2)
-    for data in (b"a\nb", b"\r\n", b'}\n"(\\', b"x" * 12 + b"\n"):
-        lit = ref_item(data, delim)
-        expect("outside: literal framed as the writer frames it", lit + b' "x"', 0, {"i": len(lit), "q": False, "stack": [[(data,)]], "raised": None},
-               why="'{N}' CRLF must be followed by exactly N bytes of data taken by length, never scanned")
-
-    # ---- reader: collapseStrings routes literals around the tokenizer ---------------------------------------------------
-    fs = ctx.func(IMAP, "collapseStrings")
-    q = "twisted.mail.imap4.collapseStrings"
-    f2 = dict(funcs)
-    f2["splitQuoted"] = lambda b: [("TOKENIZED", b)]
-    env = dict(env0)
-    for st in fs.body:
-        if isinstance(st, ast.Assign) and len(st.targets) == 1 and isinstance(st.targets[0], ast.Name) and isinstance(st.value, (ast.Lambda, ast.Dict)):
-            try:
-                env[st.targets[0].id] = peval(st.value, env, f2)
-            except (NotPure, Raised) as ex:
-                raise AnalysisError(f"{q}: {st.targets[0].id} not evaluable ({ex})")
-    preds = [k for k, v in env.items() if callable(v) and k not in env0]
-    trans = [k for k, v in env.items() if isinstance(v, dict)]
-    ctx.need(len(preds) == 1 and len(trans) == 1, f"predicate and transformer table of {q}")
-    pred, tran = env[preds[0]], env[trans[0]]
-    lit = (b'a"\\ b',)
-    try:
-        ok = bool(pred(lit)) and not pred(b"a") and tran[pred(lit)]([lit]) == [lit[0]] and tran[pred(b"a")]([QU, b"a", QU]) == [("TOKENIZED", b'"a"')]
-    except Exception as ex:  # evaluation of the lambdas failed: shape not recognised
-        raise AnalysisError(f"{q}: transformer table not evaluable ({ex!r})")
-    ctx.check(ok, "reader/literal-bypasses-tokenizer", q,
-              "literal data (a tuple from parseNestedParens) is not passed through verbatim / plain units are not tokenized: quotes, backslashes "
-              "and spaces inside a literal would be re-interpreted")
-
-    # ---- reader: splitQuoted on writer outputs ----------------------------------------------------------------------------
-    fsq = ctx.func(IMAP, "splitQuoted")
-    q = "twisted.mail.imap4.splitQuoted"
-    split = interp(fsq, funcs, env0)
-    classes = {
-        "<escaped quote inside quotes>": [], "<escape unit inside quotes>": [], "<escape unit before closing quote>": [], "<plain quoted strings>": [],
-    }
-    for w in words((ESC, QU, b"a"), 3):
-        p = b"".join(w)
-        if ESC in p:
-            classes["<escape unit before closing quote>" if p.endswith(ESC) else "<escape unit inside quotes>"].append(p)
-        elif QU in p:
-            classes["<escaped quote inside quotes>"].append(p)
-        else:
-            classes["<plain quoted strings>"].append(p)
-    classes["<plain quoted strings>"] += [b"a b", b" ", b"NIL", b"(a)", b"{1}", b"12"]
-    why = {
-        "<escaped quote inside quotes>": "the writer's backslash-quote must be read back as a quote",
-        "<escape unit inside quotes>": "the writer doubles every backslash; the reader has no branch on the escape unit, so the doubled backslash is never collapsed",
-        "<escape unit before closing quote>": "a payload ending in a backslash is written as ...\\\\\" ; the reader takes the closing quote for an escaped one",
-        "<plain quoted strings>": "a quoted string is one token, whatever it contains",
-    }
-    for cls, payloads in classes.items():
+    with sect(ctx, 'writer: _quote'):
+        fq = ctx.func(IMAP, "_quote")
+        quote = interp(fq, funcs, env0)
+        q = "twisted.mail.imap4._quote"
         bad = None
-        for p in payloads:
-            got, err = _call(split, ref_quote(p))
-            if err is not None or got != [p]:
+        n = 0
+        for w in words((ESC, QU, b"a"), 4):
+            p = b"".join(w)
+            got, err = _call(quote, p)
+            n += 1
+            if got != ref_quote(p):
                 bad = (p, got if err is None else err)
                 break
-        ctx.check(bad is None, "reader/undoes-quoting", f"{q} | {cls}",
-                  bad and f"payload {bad[0]!r} is written as {ref_quote(bad[0])!r} and read back as {bad[1]!r}: {why[cls]}", detail=f"{len(payloads)} payloads")
-    atoms = [(b"NIL", [None]), (b"12", [b"12"]), (b'12 "a b" NIL', [b"12", b"a b", None]), (b'NIL "NIL"', [None, b"NIL"]), (b'"" 7', [b"", b"7"]), (b"", [])]
-    bad = None
-    for text, want in atoms:
-        got, err = _call(split, text)
-        if err is not None or got != want:
-            bad = (text, got if err is None else err, want)
-            break
-    ctx.check(bad is None, "reader/atoms-and-nil", q, bad and f"{bad[0]!r} is tokenized as {bad[1]!r}; required {bad[2]!r} (unquoted NIL is None, quoted NIL is text, integers stay decimal text)")
+        ctx.check(bad is None, "quote/writer-semantics", q,
+                  bad and f"_quote({bad[0]!r}) gives {bad[1]!r}; an RFC 3501 quoted string needs {ref_quote(bad[0])!r} (escape the backslash first, then the quote)",
+                  detail=f"{n} payloads over {{\\\\, \", a}}^<=4")
+        funcs["_quote"] = quote
+
+    # ---- writer: _needsLiteral -----------------------------------------------------------------------------
+    with sect(ctx, 'writer: _needsLiteral'):
+        fn_ = ctx.func(IMAP, "_needsLiteral")
+        needs = interp(fn_, funcs, env0)
+        q = "twisted.mail.imap4._needsLiteral"
+        bad = None
+        for w in words((b"\r", b"\n", b"a"), 3):
+            p = b"".join(w)
+            got, err = _call(needs, p)
+            if err is not None:
+                raise AnalysisError(f"{q}: evaluation raises for {p!r}: {err}")
+            must = b"\r" in p or b"\n" in p
+            if must and not got:
+                bad = p
+                break
+        ctx.check(bad is None, "literal/needs-literal", q,
+                  f"{bad!r} contains a line break but is not sent as a literal: inside a quoted string the break ends the protocol line and the "
+                  "client's line-based framing loses the rest", detail="40 strings over {CR, LF, a}^<=3")
+        plain_ok = not _call(needs, b"a b")[0] and not _call(needs, b"")[0]
+        ctx.check(plain_ok, "literal/needs-literal", q + " | plain strings quoted", "short strings without line breaks are no longer sent as quoted strings")
+        funcs["_needsLiteral"] = needs
+
+    # ---- writer: collapseNestedLists per item kind ---------------------------------------------------------------
+    with sect(ctx, 'writer: collapseNestedLists per item kind'):
+        fc = ctx.func(IMAP, "collapseNestedLists")
+        q = "twisted.mail.imap4.collapseNestedLists"
+        collapse = interp(fc, funcs, env0)
+        funcs["collapseNestedLists"] = collapse
+        kinds = [
+            ("None -> NIL", [None]), ("int -> decimal atom", [0]), ("int -> decimal atom", [1234567890123]), ("int -> decimal atom", [-3]),
+            ("bytes -> quoted", [b""]), ("bytes -> quoted", [b"a b"]), ("bytes -> quoted", [b'a"\\b']), ("bytes -> quoted", [b"NIL"]), ("bytes -> quoted", [b"{3}"]),
+            ("bytes with line break -> literal", [b"a\nb"]), ("bytes with line break -> literal", [b"\r"]), ("bytes with line break -> literal", [b'"\\\n)']),
+            ("nested list -> parenthesised", [[b"x", None]]), ("nested list -> parenthesised", [[]]), ("nested list -> parenthesised", [[[1]], b"y"]),
+            ("items separated by one space", [None, 1, b"a"]), ("items separated by one space", []),
+        ]
+        seen = {}
+        for kind, items in kinds:
+            got, err = _call(collapse, items)
+            want = b" ".join(ref_item(x, delim) for x in items)
+            ok = err is None and got == want
+            if kind not in seen or (seen[kind][0] and not ok):
+                seen[kind] = (ok, items, got if err is None else err, want)
+        for kind, (ok, items, got, want) in seen.items():
+            ctx.check(ok, "writer/item-forms", f"{q} | {kind}", f"collapseNestedLists({items!r}) gives {got!r}; required {want!r}")
+
+    # ---- reader: parseNestedParens transition table ----------------------------------------------------------------
+    with sect(ctx, 'reader: parseNestedParens transition table'):
+        fp = ctx.func(IMAP, "parseNestedParens")
+        q = "twisted.mail.imap4.parseNestedParens"
+        loops = [x for x in ast.walk(fp) if isinstance(x, ast.While)]
+        ctx.need(len(loops) == 1, f"the scanning loop of {q}")
+        loop = loops[0]
+        params = [a.arg for a in fp.args.args]
+        ctx.need(len(params) == 2, f"{q}(s, handleLiteral)")
+        sname, hl = params
+        # names of the state variables: index, length, quote flag, stack - found by their initialisers
+        init = {}
+        for st in ast.walk(fp):
+            if isinstance(st, ast.Assign) and len(st.targets) == 1 and isinstance(st.targets[0], ast.Name) and st not in ast.walk(loop):
+                init[st.targets[0].id] = st.value
+        idx = [k for k, v in init.items() if isinstance(v, ast.Constant) and v.value == 0 and k in {n.id for n in ast.walk(loop.test) if isinstance(n, ast.Name)}]
+        flag = [k for k, v in init.items() if isinstance(v, ast.Constant) and v.value in (0, False) and k not in idx]
+        stack = [k for k, v in init.items() if isinstance(v, ast.List) and len(v.elts) == 1 and isinstance(v.elts[0], ast.List)]
+        length = [k for k, v in init.items() if isinstance(v, ast.Call) and call_name(v) == "len"]
+        ctx.need(len(idx) == 1 and len(flag) == 1 and len(stack) == 1, f"index / in-quote flag / content stack of {q}")
+        idx, flag, stack = idx[0], flag[0], stack[0]
+
+        def step(s, in_quote, depth=1, handle=1):
+            st = [[] for _ in range(depth)]
+            env = {**env0, sname: s, hl: handle, idx: 0, flag: in_quote, stack: st}
+            for ln in length:
+                env[ln] = len(s)
+            try:
+                r = eval_block(loop.body, env, funcs=funcs)
+            except BlockRaised as e:
+                return {"raised": repr(e.exc)}
+            return {"i": env[idx], "q": bool(env[flag]), "stack": env[stack], "raised": r.raised}
+
+        def expect(case, s, in_quote, want, depth=1, why=""):
+            got = step(s, in_quote, depth)
+            ctx.check(got == want, "reader/paren-transitions", f"{q} | {case}",
+                      f"at {s!r} ({'inside' if in_quote else 'outside'} a quoted string) one scanning step gives {got!r}; required {want!r}. {why}")
+
+        expect("in quotes: escape + quote", b'\\"x', 1, {"i": 2, "q": True, "stack": [[b'\\"']], "raised": None},
+               why="the unit after the escape must be consumed with it, else an escaped quote closes the string")
+        expect("in quotes: escape + escape", b'\\\\"', 1, {"i": 2, "q": True, "stack": [[b"\\\\"]], "raised": None},
+               why="a doubled escape must be consumed as a pair, else its second half escapes the closing quote")
+        expect("in quotes: closing quote", b'"x', 1, {"i": 1, "q": False, "stack": [[b'"']], "raised": None})
+        for sp in (b"(", b")", b"[", b"]", b"{"):
+            expect("in quotes: specials are inert", sp + b"3}x", 1, {"i": 1, "q": True, "stack": [[sp]], "raised": None},
+                   why="list and literal syntax inside a quoted string is data")
+        expect("outside: opening quote", b'"x', 0, {"i": 1, "q": True, "stack": [[b'"']], "raised": None})
+        expect("outside: plain unit", b"ax", 0, {"i": 1, "q": False, "stack": [[b"a"]], "raised": None})
+        for o in (b"(", b"["):
+            expect("outside: open list", o + b"x", 0, {"i": 1, "q": False, "stack": [[], []], "raised": None})
+        for c in (b")", b"]"):
+            expect("outside: close list", c + b"x", 0, {"i": 1, "q": False, "stack": [[[]]], "raised": None}, depth=2)
+        for data in (b"a\nb", b"\r\n", b'}\n"(\\', b"x" * 12 + b"\n"):
+            lit = ref_item(data, delim)
+            expect("outside: literal framed as the writer frames it", lit + b' "x"', 0, {"i": len(lit), "q": False, "stack": [[(data,)]], "raised": None},
+                   why="'{N}' CRLF must be followed by exactly N bytes of data taken by length, never scanned")
+
+    # ---- reader: collapseStrings routes literals around the tokenizer ---------------------------------------------------
+    with sect(ctx, 'reader: collapseStrings routes literals around the tokenizer'):
+        fs = ctx.func(IMAP, "collapseStrings")
+        q = "twisted.mail.imap4.collapseStrings"
+        f2 = dict(funcs)
+        f2["splitQuoted"] = lambda b: [("TOKENIZED", b)]
+        env = dict(env0)
+        for st in fs.body:
+            if isinstance(st, ast.Assign) and len(st.targets) == 1 and isinstance(st.targets[0], ast.Name) and isinstance(st.value, (ast.Lambda, ast.Dict)):
+                try:
+                    env[st.targets[0].id] = peval(st.value, env, f2)
+                except (NotPure, Raised) as ex:
+                    raise AnalysisError(f"{q}: {st.targets[0].id} not evaluable ({ex})")
+        preds = [k for k, v in env.items() if callable(v) and k not in env0]
+        trans = [k for k, v in env.items() if isinstance(v, dict)]
+        ctx.need(len(preds) == 1 and len(trans) == 1, f"predicate and transformer table of {q}")
+        pred, tran = env[preds[0]], env[trans[0]]
+        lit = (b'a"\\ b',)
+        try:
+            ok = bool(pred(lit)) and not pred(b"a") and tran[pred(lit)]([lit]) == [lit[0]] and tran[pred(b"a")]([QU, b"a", QU]) == [("TOKENIZED", b'"a"')]
+        except Exception as ex:  # evaluation of the lambdas failed: shape not recognised
+            raise AnalysisError(f"{q}: transformer table not evaluable ({ex!r})")
+        ctx.check(ok, "reader/literal-bypasses-tokenizer", q,
+                  "literal data (a tuple from parseNestedParens) is not passed through verbatim / plain units are not tokenized: quotes, backslashes "
+                  "and spaces inside a literal would be re-interpreted")
+
+    # ---- reader: splitQuoted on writer outputs ----------------------------------------------------------------------------
+    with sect(ctx, 'reader: splitQuoted on writer outputs'):
+        fsq = ctx.func(IMAP, "splitQuoted")
+        q = "twisted.mail.imap4.splitQuoted"
+        split = interp(fsq, funcs, env0)
+        classes = {
+            "<escaped quote inside quotes>": [], "<escape unit inside quotes>": [], "<escape unit before closing quote>": [], "<plain quoted strings>": [],
+        }
+        for w in words((ESC, QU, b"a"), 3):
+            p = b"".join(w)
+            if ESC in p:
+                classes["<escape unit before closing quote>" if p.endswith(ESC) else "<escape unit inside quotes>"].append(p)
+            elif QU in p:
+                classes["<escaped quote inside quotes>"].append(p)
+            else:
+                classes["<plain quoted strings>"].append(p)
+        classes["<plain quoted strings>"] += [b"a b", b" ", b"NIL", b"(a)", b"{1}", b"12"]
+        why = {
+            "<escaped quote inside quotes>": "the writer's backslash-quote must be read back as a quote",
+            "<escape unit inside quotes>": "the writer doubles every backslash; the reader has no branch on the escape unit, so the doubled backslash is never collapsed",
+            "<escape unit before closing quote>": "a payload ending in a backslash is written as ...\\\\\" ; the reader takes the closing quote for an escaped one",
+            "<plain quoted strings>": "a quoted string is one token, whatever it contains",
+        }
+        for cls, payloads in classes.items():
+            bad = None
+            for p in payloads:
+                got, err = _call(split, ref_quote(p))
+                if err is not None or got != [p]:
+                    bad = (p, got if err is None else err)
+                    break
+            ctx.check(bad is None, "reader/undoes-quoting", f"{q} | {cls}",
+                      bad and f"payload {bad[0]!r} is written as {ref_quote(bad[0])!r} and read back as {bad[1]!r}: {why[cls]}", detail=f"{len(payloads)} payloads")
+        atoms = [(b"NIL", [None]), (b"12", [b"12"]), (b'12 "a b" NIL', [b"12", b"a b", None]), (b'NIL "NIL"', [None, b"NIL"]), (b'"" 7', [b"", b"7"]), (b"", [])]
+        bad = None
+        for text, want in atoms:
+            got, err = _call(split, text)
+            if err is not None or got != want:
+                bad = (text, got if err is None else err, want)
+                break
+        ctx.check(bad is None, "reader/atoms-and-nil", q, bad and f"{bad[0]!r} is tokenized as {bad[1]!r}; required {bad[2]!r} (unquoted NIL is None, quoted NIL is text, integers stay decimal text)")
 
 
 _SQ_OLD = ('    for i, c in enumerate(iterbytes(s)):\n        if c == qu:\n            if i and s[i - 1 : i] == esc:\n                word.pop()\n'
